@@ -255,6 +255,8 @@ def run_k4(tier, seed):
         term = cf["term"].split(":")[0]
         res["dist"]["style_" + style] = res["dist"].get("style_" + style, 0) + 1
         res["dist"]["term_" + term] = res["dist"].get("term_" + term, 0) + 1
+        if a == "<skipped>":
+            continue
         if "res" not in af or "res" not in mf:
             mism("run", c, a[:200], m[:200], term, style)
             continue
